@@ -41,7 +41,7 @@ def run(ctx):
         ctx.states, ctx.transitions = st, tr
     # 2. behaviours
     behaviours, seen = [], set()
-    for h in ctx.tlc_sim("mpt", "MPTSim.tla", "Sim_K7.cfg", num=250 if q else 6000, depth=16,
+    for h in ctx.tlc_sim("mpt", "MPTSim.tla", "Sim_K7.cfg", num=350 if q else 6000, depth=16,
                          timeout=300 if q else 1500, seed=ctx.seed * 10 + 1):
         k = json.dumps(h, sort_keys=True)
         if k not in seen:
@@ -53,28 +53,30 @@ def run(ctx):
     os.makedirs(ind)
     json.dump(behaviours, open(os.path.join(ind, "behaviours.json"), "w"))
     # 3. real code
-    res = ctx.go_driver("c10mpt", "TestDriver", env={"VERIF_IN": ind, "VERIF_RANDOM": 700 if q else 20000},
+    res = ctx.go_driver("c10mpt", "TestDriver", env={"VERIF_IN": ind, "VERIF_RANDOM": 1200 if q else 20000},
                         timeout=3000)
     ctx.absorb(res)
     # 4. TLC judges the recorded traces against the abstract specification
     trace = os.path.join(res["_out"], "trace.ndjson")
-    events = vlib.read_ndjson(trace)
-    fails = judge(ctx, trace, len(events))
+    inits, n = [], 0          # line numbers (0-based) of the init events; the trace can be large: keep no events
+    with open(trace) as f:
+        for line in f:
+            if line.startswith('{"event":"init"'):
+                inits.append(n)
+            n += 1
+    fails = judge(ctx, trace, n)
     ctx.traces_validated += res.get("traces", 0)
-    ctx.extra["trace_events"] = len(events)
-    start, starts = 0, []
-    for i, e in enumerate(events):
-        if e["event"] == "init":
-            start = i
-        starts.append(start)
-    reported = set()
-    for f in fails:
+    ctx.extra["trace_events"] = n
+    import bisect
+    reported = {}
+    for f in sorted(fails, key=lambda f: f["line"]):
         li = f["line"] - 1
-        s = starts[li]
-        if s in reported:
-            continue        # the first failing step of a history is the violation
-        reported.add(s)
-        ev = events[li]
+        s = inits[bisect.bisect_right(inits, li) - 1]
+        if s not in reported:
+            reported[s] = (li, f)    # the first failing step of a history is the violation
+    for s, (li, f) in sorted(reported.items())[:200]:
+        hist = read_lines(trace, s, li + 1)
+        ev = hist[-1]
         w = sorted(f["what"])[0]
         sig = {"kind": w, "op": ev["event"]}
         for k in SIG_EVENT_KEYS:
@@ -83,17 +85,55 @@ def run(ctx):
         if ev["event"] == "seek":
             sig["start"] = len(ev["start"]) > 0
         ctx.violation(sig, {"what": "abstract predicate %s false at %s on the real trie (%s)" % (
-            w, ev["event"], events[s].get("src")), "all_failed": sorted(f["what"]), "mode": events[s].get("mode"),
-            "history": slim(events[s:li + 1])})
+            w, ev["event"], hist[0].get("src")), "all_failed": sorted(f["what"]), "mode": hist[0].get("mode"),
+            "history": slim(hist)})
     # 5. binding self-test: corrupted good traces must be rejected
     if not fails and not ctx.violations:
-        selftest(ctx, events)
+        selftest(ctx, read_lines(trace, 0, 80000))
 
 
-def judge(ctx, trace, n):
-    """TLC's trace evaluation is sequential: split long traces at history boundaries and run the parts in turn
-    (each part starts with an init event, which re-initialises the specification)."""
-    return ctx.trace_judge("mpt", "MPTTrace.tla", "Trace_MPT.cfg", trace, timeout=3000)
+def read_lines(path, lo, hi):
+    out = []
+    with open(path) as f:
+        for i, line in enumerate(f):
+            if i >= hi:
+                break
+            if i >= lo:
+                out.append(json.loads(line))
+    return out
+
+
+def judge(ctx, trace, n, chunk=60000):
+    """TLC loads a whole trace file in memory: long traces are split at history boundaries (every history starts with
+    an init event, which re-initialises the specification) and the parts are judged in turn."""
+    if n <= chunk:
+        return ctx.trace_judge("mpt", "MPTTrace.tla", "Trace_MPT.cfg", trace, timeout=3000)
+    fails, part, base, lineno, k = [], [], 0, 0, 0
+
+    def flush_part():
+        nonlocal part, base, k
+        if not part:
+            return
+        pp = os.path.join(ctx.work, "trace-part-%d.ndjson" % k)
+        with open(pp, "w") as f:
+            f.writelines(part)
+        for fl in ctx.trace_judge("mpt", "MPTTrace.tla", "Trace_MPT.cfg", pp, timeout=3000):
+            fl["line"] += base
+            fails.append(fl)
+        os.remove(pp)
+        base += len(part)
+        part = []
+        k += 1
+
+    with open(trace) as f:
+        for line in f:
+            if not line.strip():
+                continue
+            if len(part) >= chunk and line.startswith('{"event":"init"'):
+                flush_part()
+            part.append(line)
+    flush_part()
+    return fails
 
 
 def slim(evs):
